@@ -200,6 +200,12 @@ func yyInputs(r *Result) (srcs [][]byte, tags []string) {
 	for _, c := range heredocLookalikes() {
 		add(c, "heredoc-lookalike")
 	}
+	{
+		st, ca := heredocTrailers()
+		for _, c := range append(st, ca...) {
+			add(c, "heredoc-trailer")
+		}
+	}
 	var base [][]byte
 	for _, s := range loadCorpus() {
 		if len(s.Src) < 6000 {
